@@ -1078,3 +1078,11 @@ _iw = _IncrWrapper(RX + 'rex_incremental_coverage', props=['C18'],
                    ensures=[('newly-explained-counts-with-or-without-repeats-as-requested',
                              'picks_the_requested_counts(result, patterns, examples, sort_on_deduped)')])
 REGISTRY[_iw.ident] = _iw
+
+REGISTRY[RX + 'Extractor.extract'].abstraction = 'callees (batch_extract, check_fn, clean, add_warnings, find_bad_patterns, results.remove, convert_rex_to_dialect, examples.update, random.sample) are stubs that return anything or raise; PRNGState is a ghost counting save/restore; the sampling loop is cut at an invariant'
+
+REGISTRY[RX + 'Extractor.clean'].abstraction = 'inputs of 0..3 entries (list / dict / Examples) with symbolic strings and counts; str.strip is an uninterpreted function; collections.Counter is a symbolic-key dictionary with default 0'
+
+REGISTRY[RX + 'matrices2incremental_coverage'].abstraction = 'match matrices of <= 3 expressions x 3 examples (quick: 3x2 / 2x3) with symbolic frequencies >= 1 and symbolic match bits; Coverage is a record stub'
+
+REGISTRY[RX + 'rex_coverage'].abstraction = 'expression lists of length 0..3; re.compile / re.match are an uninterpreted predicate of (pattern text, flags, string); sums over the example lists are shared partial-sum functions'
